@@ -721,6 +721,11 @@ func (fr *Frame) havocAssigns(ct *Contract, st *State) {
 func (fr *Frame) frameCheck(st *State, addr *Term, t types.Type, label string, pos token.Pos) {
 	vc := fr.vc
 	ct := vc.contract
+	if ct != nil && ct.WritesFresh && !vc.sweep && !vc.refute {
+		// ownership discipline of a request handler: nothing that existed before the call is written
+		vc.oblige(st, "frame", "shared-write:"+label, ct.WritesProps, Le(IntLit(1), RootID(addr)), pos)
+		return
+	}
 	if ct == nil || ct.Inline || vc.sweep || vc.refute {
 		return
 	}
